@@ -353,6 +353,9 @@ def main(argv=None):
 
     # ---- verdicts
     os.makedirs(os.path.join(ROOT, "replays", prop), exist_ok=True)
+    if a.only is None:
+        for old in os.listdir(os.path.join(ROOT, "replays", prop)):  # replays of earlier runs are stale
+            os.remove(os.path.join(ROOT, "replays", prop, old))
     by_backend = {}
     discharged = 0
     violations = []
